@@ -12,7 +12,7 @@ from ..gen.doc import DocGen
 from ..gen.schemas import rich_inc
 from ..mon.incrun import run_incremental
 from ..ref.executor import Ref
-from ..ref.incremental import Assembler, defer_label_nesting, first_difference, refines, unordered_equal
+from ..ref.incremental import stream_order_problems, Assembler, defer_label_nesting, first_difference, refines, unordered_equal
 
 LEVEL = "exploration"
 LEVEL_TEXT = ("Generated validated queries with @defer/@stream (nested, labelled, if:false / variable, overlapping fragments, initialCount 0..3, streams over lists, "
@@ -22,7 +22,7 @@ LEVEL_TEXT = ("Generated validated queries with @defer/@stream (nested, labelled
               "ignores the directives: exact equality when error-free or propagation is disabled, the 'refines' relation otherwise.")
 LEVEL_NOTE = ("trusted: R3 (reference executor), R4 (merge model, vf/ref/incremental.py), the controlled loop; objects are compared unordered (deferred keys legitimately arrive later), lists ordered")
 TECHNIQUE = "runtime monitoring with schedule control: differential oracle (merge model + specification executor) over incremental payload histories"
-RULE = ("requests from G-doc over the rich schema with the three experimental directives added (1/11 of the seeds: over a generated valid schema with those directives added; 2/11: the split-defer and overlapping-defer template families); fault rate in {0, .1, .25} (null, raise, returned exception, wrong shape, list source raising after its items); @experimental_disableErrorPropagation on 30% of the operations; "
+RULE = ("requests from G-doc over the rich schema with the three experimental directives added (1/11 of the seeds: over a generated valid schema with those directives added; 4/11: the split-defer, overlapping-defer, list-nested-defer and stream template families, the last with list sources that are mostly async iterators); fault rate in {0, .1, .25} (null, raise, returned exception, wrong shape, list source raising after its items); @experimental_disableErrorPropagation on 30% of the operations; "
         "per request 6 (quick) / 10 (thorough) schedules x early execution in {off,on}. Non-trivial: the response was incremental (>= 1 subsequent payload); "
         "distinct = (document, variables, early, interleaving signature).")
 ASSUMPTIONS = ["when the *source* of a streamed list fails after items were delivered, those items cannot be taken back: such runs are judged by the refines relation "
@@ -65,6 +65,52 @@ def overlap_defer_doc(rng):
     return f'query Q {{ {parent} {{ {parts[0]} {parts[1]} }}{close} }}'
 
 
+def list_nested_defer_doc(rng):
+    """A deferred fragment on every item of a list, each discovering a further nested @defer when it runs, below an
+    already existing defer context: what one item records about its fragments must not leak into its siblings,
+    whichever item's fragment completes first."""
+    leafs = ['name', 'age', 'active', 'role', 'blob', 'id', 'score']
+    lst = rng.choice(['users', 'me { friends', 'nnMe { nnFriends', 'me { nnFriends'])
+    close = ' }' if '{' in lst else ''
+    obj = rng.choice(['best', 'nnBest', 'best'])
+    a, b, c = rng.sample(leafs, 3)
+    inner = f'{obj} {{ {a} ... @defer(label: "I") {{ {b} }} }}'
+    outer = f'... @defer(label: "O") {{ {c} {inner} }}'
+    if rng.random() < 0.3:
+        outer = f'... @defer(label: "O") {{ {inner} }} {c}'
+    top = rng.choice(['... @defer(label: "T") { t: __typename }', '... @defer(label: "T") { me { id } }'])
+    body = f'{lst} {{ {rng.choice(leafs)} {outer} }}{close}'
+    if rng.random() < 0.35:
+        return f'query Q {{ ... @defer(label: "T") {{ {body} }} }}'
+    parts = [top, body]
+    rng.shuffle(parts)
+    return f'query Q {{ {parts[0]} {parts[1]} }}'
+
+
+def stream_doc(rng):
+    """Streamed lists, plain and nested, of objects and of leaves; run with list sources that are mostly async iterators."""
+    leafs = ['name', 'age', 'active', 'role', 'blob', 'id', 'score']
+
+    def st():
+        lab = rng.choice(['', '', f', label: "S{rng.randrange(3)}"'])
+        return f'@stream(initialCount: {rng.choice([0, 0, 1, 2])}{lab})'
+    a, b = rng.sample(leafs, 2)
+    k = rng.randrange(6)
+    if k == 0:
+        body = f'users {st()} {{ {a} {b} }}'
+    elif k == 1:
+        body = f'me {{ friends {st()} {{ {a} best {{ {b} }} }} }}'
+    elif k == 2:
+        body = f'users {st()} {{ {a} friends {st()} {{ {b} }} }}'
+    elif k == 3:
+        body = f'nnMe {{ tags {st()} roles {st()} {a} }}'
+    elif k == 4:
+        body = f'users {st()} {{ {a} ... @defer(label: "D") {{ {b} }} }}'
+    else:
+        body = f'me {{ nnFriends {st()} {{ {a} }} }} x: users {st()} {{ {b} }}'
+    return f'query Q {{ {body} }}'
+
+
 _gen_inc = {}
 
 
@@ -84,6 +130,10 @@ def gen_request(seed, p_defer=0.35, p_stream=0.35):
         return schema, split_defer_doc(rng), {}, rng
     if seed % 11 == 9:
         return schema, overlap_defer_doc(rng), {}, rng
+    if seed % 11 == 7:
+        return schema, list_nested_defer_doc(rng), {}, rng
+    if seed % 11 == 6:
+        return schema, stream_doc(rng), {}, rng
     if seed % 11 == 8:
         # a generated valid schema (G-schema) with the experimental directives added, instead of the fixed one
         gs = generated_inc_schema((seed * 7919) % 4000)
@@ -148,9 +198,10 @@ def judge_merge(ctx, asm, ref, ref_noprop, noprop, case, src):
     return True
 
 
-def one_run(ctx, schema, doc, src, variables, value_fn, ref, ref_noprop, noprop, seed, p_async, policy, early, protocol, merge, base_case, nesting):
+def one_run(ctx, schema, doc, src, variables, value_fn, ref, ref_noprop, noprop, seed, p_async, policy, early, protocol, merge, base_case, nesting,
+            p_iter=0.35):
     case = {**base_case, "schedule_seed": seed, "p_async": p_async, "policy": policy, "early": early}
-    run, sched, hz, obs = run_incremental(schema, doc, variables, value_fn, seed, p_async=p_async, policy=policy, early=early)
+    run, sched, hz, obs = run_incremental(schema, doc, variables, value_fn, seed, p_async=p_async, policy=policy, early=early, p_iter=p_iter)
     try:
         run.quiesce()
         ctx.count("runs")
@@ -184,6 +235,11 @@ def one_run(ctx, schema, doc, src, variables, value_fn, ref, ref_noprop, noprop,
             for mech, detail in asm.problems:
                 ctx.violation("protocol:" + mech, {"source": src[:700], **detail, "events": asm.events[-12:], "early": early}, case)
                 return
+            if asm.stream_paths and ref_noprop.get('data') is not None:
+                ctx.count("stream_orders_checked", len(asm.stream_paths))
+                for mech, detail in stream_order_problems(asm, ref_noprop['data']):
+                    ctx.violation("protocol:" + mech, {"source": src[:700], **detail, "events": asm.events[-12:], "early": early}, case)
+                    return
         elif asm.problems and merge:
             # a stream that cannot be assembled also fails the merge property
             mech, detail = asm.problems[0]
@@ -229,8 +285,8 @@ def check_request(ctx, seed, k, protocol=False, merge=True):
     n = 10 if ctx.tier == "thorough" else 6
     for j in range(n):
         ctx.case()
-        one_run(ctx, schema, doc, src, variables, value_fn, ref, ref_noprop, noprop, seed * 100 + j, [0.0, 0.3, 0.7, 1.0][j % 4],
-                ['random', 'fifo', 'lifo'][j % 3], bool(j % 2), protocol, merge, base_case, nesting)
+        one_run(ctx, schema, doc, src, variables, value_fn, ref, ref_noprop, noprop, seed * 100 + j, [0.0, 0.3, 0.7, 1.0, 0.7, 0.5][j % 6],
+                ['random', 'fifo', 'lifo', 'slow-source', 'slow-consumer', 'phases', 'burst'][(j + seed) % 7], bool(j % 2), protocol, merge, base_case, nesting, p_iter=0.9 if seed % 11 == 6 else 0.35)
     if k % 199 == 0:
         ctx.sample({"source": src[:500], "variables": variables, "fault_rate": fault})
 
